@@ -5,7 +5,7 @@ import ast
 
 from ..cfg import CFG, always_raises
 from ..core import AnalysisError, calls_in, call_name, dotted, unparse, walk_no_nested
-from ..match import Field, const_int, field_of, inline, pack_call, single_assignments
+from ..match import Field, const_int, field_of, inline, pack_call, packed_bytes, single_assignments
 from ..report import Ctx
 
 LEVEL = "other"
@@ -35,30 +35,24 @@ def r1_framing(ctx: Ctx) -> None:
     h = ctx.repo.func(W, "IPSWriter.write_block_header")
     blk, addr = h.params()[1], h.params()[2]
     ws = _writes(h.node)
-    if len(ws) != 2:
-        ctx.fail("write_block_header:writes", f"expected offset and length writes, found {len(ws)}")
+    if not ws:
+        ctx.fail("write_block_header:writes", "no header is written")
         return
-    p0, p1 = pack_call(ws[0].args[0]), pack_call(ws[1].args[0])
-    if p0 is None or p1 is None:
-        raise AnalysisError("write_block_header: writes are not struct.pack calls")
-    f0, a0 = p0
-    ctx.check(f0.size == 3 and f0.big and f0.order in (">", "!"), "write_block_header:offset-format", f"offset is 3 bytes big-endian; format {f0.text!r}")
-    if f0.size == 3 and len(a0) == len(f0.fields):
-        off = 3
-        for (code, n), a in zip(f0.fields, a0):
-            off -= n
-            f = field_of(a)
-            if f is None:
-                raise AnalysisError(f"write_block_header: offset component `{unparse(a)}` not modelled")
-            last_field_high = off == 3 - f0.fields[0][1]
-            want_mask = None if (a is a0[0]) else (1 << (8 * n)) - 1
-            ctx.check(f.source == addr and f.shift == 8 * off and f.mask == want_mask and code in "BH", f"write_block_header:offset-field@{off}",
-                      f"packs {f}; needs ({addr} >> {8 * off}) " + ("unmasked, so an offset beyond 2^24 raises instead of wrapping" if want_mask is None else f"& {hex(want_mask)}"))
-    f1, a1 = p1
-    ctx.check(f1.size == 2 and f1.order in (">", "!") and len(a1) == 1 and unparse(a1[0]) == f"len({blk})", "write_block_header:length-field",
-              f"length is 2 bytes big-endian of len({blk}); found {f1.text!r} {[unparse(x) for x in a1]}")
-    ctx.check(h.node.body.index(_stmt_of(h.node, ws[0])) < h.node.body.index(_stmt_of(h.node, ws[1])), "write_block_header:order", "offset then length")
-    ctx.count("header_fields", 3)
+    # the header is whatever the top-level writes emit, in statement order
+    top = [w for s_ in h.node.body for w in ws if isinstance(s_, ast.Expr) and s_.value is w]
+    if len(top) != len(ws):
+        raise AnalysisError("write_block_header: conditional header writes not modelled")
+    env = single_assignments(h.node)
+    header: list = []
+    for w in top:
+        header += packed_bytes(inline(w.args[0], env))
+    want = [(addr, 16), (addr, 8), (addr, 0), (f"len({blk})", 8), (f"len({blk})", 0)]
+    if not ctx.check(len(header) == 5, "write_block_header:size", f"a record header is 5 bytes (3 offset + 2 length); {len(header)} are written"):
+        return
+    for j, (b, (src, bit)) in enumerate(zip(header, want)):
+        ctx.check((b.source, b.bit) == (src, bit) and not b.signed, f"write_block_header:byte{j}", f"writes {b}; the IPS header needs bits {bit}..{bit + 7} of {src} (big-endian)")
+    ctx.check(header[0].checked, "write_block_header:offset-range-checked", "the top offset byte is packed unmasked in a one-byte field, so an offset >= 2^24 raises instead of wrapping")
+    ctx.count("header_fields", 5)
 
 
 def _stmt_of(fn: ast.FunctionDef, node: ast.AST) -> ast.stmt:
